@@ -85,7 +85,7 @@ func template(t *rapid.T, label string, earlier, later []string, st *gstats, isN
 			fmt.Fprintf(&b, "${%s}", v)
 			st.fwd = true
 		case k == 7:
-			fmt.Fprintf(&b, "${%s}", rapid.SampledFrom([]string{"R1", "R2", "r1", "PATH"}).Draw(t, "rt"))
+			fmt.Fprintf(&b, "${%s}", rapid.SampledFrom([]string{"R1", "R2", "r1", "PATH", "NL", "CRLF"}).Draw(t, "rt"))
 		case k == 8:
 			b.WriteString(rapid.SampledFrom([]string{"$$A", "\\$A", "$${B}", "$$", "$(", "$", "\\$5", "\\$", "^(a|b)\\$", "\\$ x", "$$5", "\\$\\$"}).Draw(t, "esc"))
 		case k == 9:
@@ -165,6 +165,12 @@ func TestPropEnvBlock(t *testing.T) {
 		}
 		for k, v := range collisionRuntime {
 			runtime[k] = v
+		}
+		// values that end in a line terminator (a block scalar, a CRLF upload): a name built from one is a
+		// different name from the one without it
+		if rapid.Bool().Draw(t, "hasNL") {
+			runtime["NL"] = "prod\n"
+			runtime["CRLF"] = "R1\r\n"
 		}
 		if envKind == 3 {
 			runtime = map[string]string{}
